@@ -93,6 +93,7 @@ pub struct SincFixedIn<T> {
     nbr_channels: usize,
     chunk_size: usize,
     max_chunk_size: usize,
+    current_buffer_fill: usize,
     last_index: f64,
     resample_ratio: f64,
     resample_ratio_original: f64,
@@ -317,6 +318,7 @@ where
             nbr_channels,
             chunk_size,
             max_chunk_size: chunk_size,
+            current_buffer_fill: chunk_size,
             last_index: -((interpolator.len() / 2) as f64),
             resample_ratio,
             resample_ratio_original: resample_ratio,
@@ -381,8 +383,12 @@ where
 
         // Update buffer with new data.
         for buf in self.buffer.iter_mut() {
-            buf.copy_within(self.chunk_size..self.chunk_size + 2 * sinc_len, 0);
+            buf.copy_within(
+                self.current_buffer_fill..self.current_buffer_fill + 2 * sinc_len,
+                0,
+            );
         }
+        self.current_buffer_fill = self.chunk_size;
 
         for (chan, active) in self.channel_mask.iter().enumerate() {
             if *active {
@@ -580,6 +586,7 @@ where
         self.resample_ratio = self.resample_ratio_original;
         self.target_ratio = self.resample_ratio_original;
         self.chunk_size = self.max_chunk_size;
+        self.current_buffer_fill = self.max_chunk_size;
     }
 
     fn set_chunk_size(&mut self, chunksize: usize) -> ResampleResult<()> {
